@@ -23,6 +23,7 @@ contract(INDEX, 'Index.__contains__', key='IndexGO.__contains__', assumed=True,
     params=dict(self='IndexGO', value='elem'), order=['self', 'value'], result='bool',
     ensures=['result == Has(self.labels, value)'])
 contract(INDEX, '_IndexGOMixin.append', key='IndexGO.append', assumed=True, modifies_self=True,
+    backed_by='the same statement is proved on the real method over its concrete fields as _IndexGOMixin.append[impl] (labels = _labels_mutable); what stays assumed is that __contains__ agrees with the label list',
     params=dict(self='IndexGO', value='elem'), order=['self', 'value'], result='none',
     raises={'KeyError': 'Has(self.labels, value)'},
     ensures=['len(self.labels) == old(len(self.labels)) + 1', 'at(self.labels, old(len(self.labels))) == value',
@@ -67,6 +68,7 @@ contract(FRAME, 'FrameGO.__setitem__',
 
 # IndexGO.extend is a loop of append: it stops at the first duplicate, keeping the labels appended so far (prefix semantics)
 contract(INDEX, '_IndexGOMixin.extend', key='IndexGO.extend', assumed=True, modifies_self=True,
+    backed_by='the same statement (prefix semantics on rejection) is proved on the real method as _IndexGOMixin.extend[impl]',
     params=dict(self='IndexGO', values='Index'), order=['self', 'values'], result='none',
     raises={'KeyError': ('maybe', 'exists_in(0, len(values.labels), lambda i: Has(self.labels, at(values.labels, i)))')},
     raise_modifies_self=True,
